@@ -111,12 +111,13 @@ def _scenario(name, ops, tier, allow=1):
                 return last[0]
         BP.time = T
         fns, results = {}, {}
-        fed = {"n": n0}
+        fed = {"n": n0, "asked": n0}
         for tn, kind in ops:
             def fn(tn=tn, kind=kind):
                 try:
                     if kind == "feed":
                         n = params[tn + ".n"]["i"]
+                        fed["asked"] += n
                         bp.feed(bytes(range(fed["n"], fed["n"] + n)))
                         return None
                     if kind == "read":
@@ -129,7 +130,7 @@ def _scenario(name, ops, tier, allow=1):
                 except BP.PipeTimeout:
                     results[tn] = ("PipeTimeout", len(bp._buffer), bp._closed)
             fns[tn] = fn
-        return {"fns": fns, "bp": bp, "results": results, "BP": BP, "gate": [bp]}
+        return {"fns": fns, "bp": bp, "results": results, "BP": BP, "gate": [bp], "fed": fed}
 
     def observe(real, s):
         import time as _time
@@ -143,6 +144,10 @@ def _scenario(name, ops, tier, allow=1):
                 viol.append("%s raised PipeTimeout on a closed pipe" % tn)
             if isinstance(r, bytes) and r == b"" and not real["bp"]._closed and dict(ops).get(tn) == "read":
                 viol.append("%s returned empty on an open pipe" % tn)
+        if getattr(s, "completed", False):
+            got = sum(len(r) for r in res.values() if isinstance(r, bytes)) + len(real["bp"]._buffer)
+            if got != real["fed"]["asked"]:
+                viol.append("%d byte(s) were fed (initial content included) but only %d are accounted for" % (real["fed"]["asked"], got))
         return {"violated": bool(viol), "details": "; ".join(viol), "results": {k: repr(v) for k, v in res.items()}}
     sc = Scenario(name, W, threads, bad, 0, params=P, init_extra=init, files=[BP.__file__], make_real=make_real, observe=observe)
     sc.loop_allowance_iterations = allow
